@@ -1082,8 +1082,7 @@ int32_t jls_core_fsr(struct jls_core_s * self, uint16_t signal_id, int64_t start
     int64_t chunk_sample_id;
     int64_t chunk_sample_count;
     uint8_t * u8;
-    uint8_t shift_bits = 0;
-    uint8_t shift_carry = 0;
+    int64_t dst_bit = 0;  // output position in bits, for sample sizes below one byte
 
     while (data_length > 0) {
         ROE(jls_core_rd_fsr_data0(self, signal_id, start_sample_id));
@@ -1097,48 +1096,43 @@ int32_t jls_core_fsr(struct jls_core_s * self, uint16_t signal_id, int64_t start
             return JLS_ERROR_UNSPECIFIED;
         }
 
-        int64_t sz_samples = chunk_sample_count;
-        if (start_sample_id > chunk_sample_id) {
-            // should only happen on first chunk
-            int64_t idx_start = start_sample_id - chunk_sample_id;
-            sz_samples = chunk_sample_count - idx_start;
-            u8 += ((idx_start * entry_size_bits) / 8);
-            switch (entry_size_bits) {
-                case 1: shift_bits = (uint8_t) (start_sample_id & 0x07); break;
-                case 4: shift_bits = (uint8_t) ((start_sample_id & 0x01) * 4); break;
-                default: break;
-            }
-            if (shift_bits) {
-                shift_carry = (*u8++) >> shift_bits;
-                uint8_t rem_bits = (uint8_t) ((start_sample_id + data_length - 1) & 0x07) + 1;
-                if ((1 == entry_size_bits) && ((8 - shift_bits + rem_bits) > 8)) {
-                    // write out carry on buffer wrap when carry + end bits exceed a byte
-                    if (data_length > sz_samples) {
-                        data_length += 8;
-                    }
-                } else if ((4 == entry_size_bits) && (sz_samples == 1)) {
-                    data_length -= sz_samples;
-                    start_sample_id += sz_samples;
-                    continue;
-                }
-            }
+        // position within this chunk, which is byte-aligned at its own first sample
+        int64_t idx_start = start_sample_id - chunk_sample_id;
+        int64_t sz_samples = chunk_sample_count - idx_start;
+        if ((idx_start < 0) || (sz_samples <= 0)) {
+            JLS_LOGE("fsr chunk does not contain sample %" PRIi64, start_sample_id);
+            return JLS_ERROR_NOT_FOUND;
         }
-
         if (sz_samples > data_length) {
             sz_samples = data_length;
         }
 
-        size_t sz_bytes = (size_t) (sz_samples * entry_size_bits + 7) / 8;
-        if (shift_bits) {
-            for (size_t i = 0; i < sz_bytes; ++i) {
-                data_u8[i] = (u8[i] << (8 - shift_bits)) | shift_carry;
-                shift_carry = u8[i] >> shift_bits;
-            }
-            sz_bytes = (sz_samples * entry_size_bits) / 8;
+        if (entry_size_bits >= 8) {
+            size_t entry_size_bytes = entry_size_bits / 8;
+            size_t sz_bytes = (size_t) sz_samples * entry_size_bytes;
+            memcpy(data_u8, u8 + idx_start * entry_size_bytes, sz_bytes);
+            data_u8 += sz_bytes;
         } else {
-            memcpy(data_u8, u8, sz_bytes);
+            int64_t src_bit = idx_start * entry_size_bits;
+            int64_t sz_bits = sz_samples * entry_size_bits;
+            if ((0 == (src_bit & 7)) && (0 == (dst_bit & 7))) {
+                // both byte aligned: copy whole bytes, then the remaining bits
+                int64_t whole = sz_bits / 8;
+                memcpy(data_u8 + (dst_bit / 8), u8 + (src_bit / 8), (size_t) whole);
+                src_bit += whole * 8;
+                dst_bit += whole * 8;
+                sz_bits -= whole * 8;
+            }
+            for (; sz_bits > 0; --sz_bits, ++src_bit, ++dst_bit) {
+                uint8_t bit = (uint8_t) ((u8[src_bit / 8] >> (src_bit & 7)) & 1);
+                uint8_t mask = (uint8_t) (1U << (dst_bit & 7));
+                if (bit) {
+                    data_u8[dst_bit / 8] |= mask;
+                } else {
+                    data_u8[dst_bit / 8] &= (uint8_t) ~mask;
+                }
+            }
         }
-        data_u8 += sz_bytes;
         data_length -= sz_samples;
         start_sample_id += sz_samples;
     }
